@@ -29,7 +29,7 @@ ASSUMPTIONS = [
 ]
 EXHAUSTIVE = {"quick": False, "thorough": False}
 EXHAUSTIVE_DOMAIN = {
-    "quick": "grammar slice enumerated exhaustively: 12 root spellings x (none + 26 "
+    "quick": "grammar slice enumerated exhaustively: 35 root spellings x (none + 26 "
              "shorthands) x (none + 12 core degrees + 3 omissions) x 8 basses",
     "thorough": "bounded grammar enumerated exhaustively: 35 root spellings x (none + "
                 "26 shorthands) x (none, every single degree with <= 2 accidentals "
@@ -42,12 +42,12 @@ FLAGS = [(False, False), (False, True), (True, False), (True, True)]
 
 def plan(tier, seed):
     if tier == "quick":
-        parts = 8
+        parts = 10
         shards = [{"name": "grammar-%d" % p, "kind": "grammar", "part": p,
-                   "parts": parts, "n_roots": 12, "deg": "core", "bass": "core"}
+                   "parts": parts, "n_roots": 35, "deg": "core", "bass": "core"}
                   for p in range(parts)]
-        shards += [{"name": "mutate-%d" % p, "kind": "mutate", "n": 7000}
-                   for p in range(8)]
+        shards += [{"name": "mutate-%d" % p, "kind": "mutate", "n": 25000}
+                   for p in range(6)]
     else:
         parts = 32
         shards = [{"name": "grammar-%d" % p, "kind": "grammar", "part": p,
